@@ -214,13 +214,92 @@ def leg_success(part, tier, shard, nshards):
     drive(part, "success", success_cases(tier), shard, nshards, check_success)
 
 
-LEGS = {"errors": leg_errors, "success": leg_success}
+# -- an error reply that follows a failed exchange on the same proxy (real transport over the in-memory network) ----
+
+
+def after_fault_cases(tier):
+    errs = [{"code": -32601, "message": "m"}, {"code": 5, "message": "app", "data": [1]}, {"code": -32000.0, "message": "b"}, "plain text error",
+            {"reason": "r"}]
+    for fault in ("truncated-big", "gzip-truncated", "reset-mid-body", "garbage-big", "status-500-big", "none"):
+        for ei in range(len(errs)):
+            for form in ("2.0", "1.0"):
+                for scheme in ("tcp", "unix"):
+                    yield (fault, ei, form, scheme)
+
+
+def check_after_fault(case):
+    from mc import env
+
+    fault, ei, form, scheme = case
+    errs = [{"code": -32601, "message": "m"}, {"code": 5, "message": "app", "data": [1]}, {"code": -32000.0, "message": "b"}, "plain text error",
+            {"reason": "r"}]
+    err = errs[ei]
+    out = Out(cls="after-fault/" + fault)
+    import base64
+    import hashlib
+    seed, blocks = b"c06", []
+    for _ in range(120):
+        seed = hashlib.sha256(seed).digest()
+        blocks.append(base64.b64encode(seed))
+    junk = b'"' + b"".join(blocks) + b'"'  # ~5 KiB that gzip cannot shrink below several read blocks
+    reply = {"jsonrpc": "2.0", "id": 2, "error": err} if form == "2.0" else {"id": 2, "result": None, "error": err}
+    state = {"n": 0}
+
+    def responder(peer, req, parsed):
+        state["n"] += 1
+        if state["n"] == 1 and fault != "none":
+            if fault == "truncated-big":
+                return env.http_resp(200, "OK", junk + b"x" * 64)[:-64], True
+            if fault == "gzip-truncated":
+                return env.http_resp(200, "OK", env.gzip_bytes(junk)[:-20], extra=["Content-Encoding: gzip"], length=False, ka=False), True
+            if fault == "reset-mid-body":
+                return env.http_resp(200, "OK", junk + b"x" * 4000)[:-4000], "reset"
+            if fault == "garbage-big":
+                return env.http_resp(200, "OK", b"<html>" + junk + b"</html>"), False
+            return env.http_resp(500, "Internal Server Error", junk), False
+        return env.http_resp(200, "OK", json.dumps(reply).encode("utf-8")), False
+
+    peer = env.ScriptPeer(responder=responder)
+    url = "http://h.test/rpc" if scheme == "tcp" else "unix+http://./s.sock"
+    with env.client_net(peer):
+        proxy = jsonrpclib.ServerProxy(url)
+        if fault != "none":
+            try:
+                proxy.first("x")
+            except J.ProtocolError:
+                pass
+            except Exception as ex:
+                if state["n"] >= 2:
+                    # the transport retried inside the first call and it is the error reply that was read
+                    out.bad("C06/call/raises-%s-for-an-error-reply-after-a-failed-exchange" % type(ex).__name__,
+                            "%r: the retry inside the first call read the error reply and raised %r instead of ProtocolError" % (case, ex))
+        try:
+            r = proxy.second("y")
+            return out.bad("C06/call/error-swallowed", "%r: the call returned %r for an error reply" % (case, r))
+        except J.ProtocolError as ex:
+            kind, code = classify(err)
+            if kind == "app" and not isinstance(ex, J.AppError):
+                out.bad("C06/call/other-code-not-AppError", "%r raised %r" % (case, ex))
+            if kind == "protocol" and type(ex) is not J.ProtocolError:
+                out.bad("C06/call/predefined-code-not-plain-ProtocolError", "%r raised %r" % (case, ex))
+        except Exception as ex:
+            out.bad("C06/call/raises-%s-for-an-error-reply-after-a-failed-exchange" % type(ex).__name__,
+                    "%r: the error reply that follows a failed exchange raised %r instead of ProtocolError" % (case, ex))
+    return out
+
+
+def leg_after_fault(part, tier, shard, nshards):
+    drive(part, "after-fault", after_fault_cases(tier), shard, nshards, check_after_fault)
+
+
+LEGS = {"errors": leg_errors, "success": leg_success, "after-fault": leg_after_fault}
 
 META = {
     "technique": "bounded-exhaustive enumeration of reply objects x client entry points against a reference error classifier",
     "rule": "error member ranges over scalar/array/single-entry shapes and over every object of the grammar code(22) x message(5) x "
     "trace(2) x data(5); x 4 envelope forms x id {1,null} x 7 entry points; success side: every JSON value (depth<=1 quick, <=2 thorough) x "
-    "3 envelope forms x 7 entry points; all cases are non-trivial (each reaches a classification branch); distinct by encoded case",
+    "3 envelope forms x 7 entry points; after-fault: an error reply following a truncated / non-JSON / non-200 exchange (bodies larger than the read size) on the "
+    "same proxy through the real transport over the in-memory network; all cases are non-trivial (each reaches a classification branch); distinct by encoded case",
     "bounds": {"quick": {"value_depth": 1, "batch_len": 3}, "thorough": {"value_depth": "1 exhaustively, plus depth 2 up to 60000 values in simplest-first order", "batch_len": 3}},
     "assumptions": [
         "falsy-but-not-null error members (0, '', [], {}) are neither 'non-empty' nor 'null or absent' in the property text and are not asserted",
@@ -232,6 +311,8 @@ META = {
 
 def replay(case):
     c = eval(case["case"], {"__builtins__": {}}, {})
+    if case["leg"] == "after-fault":
+        return check_after_fault(c).viols
     if case["leg"] == "errors":
         return check_error(c).viols
     return check_success(c).viols
